@@ -326,6 +326,11 @@ impl<S: Read + Write> Client<S> {
         self.x224.shutdown()
     }
 
+    /// Number of bytes that can be read without waiting for the socket
+    pub fn pending(&self) -> usize {
+        self.x224.pending()
+    }
+
     /// This function check if the client
     /// version protocol choose is 5+
     pub fn is_rdp_version_5_plus(&self) -> bool {
